@@ -693,6 +693,9 @@ def prop_consist(ctx):
             continue
         if isinstance(st, ast.If):
             # default for a missing initial error: zeros - does not change the roles
+            if any(isinstance(n, ast.Return) for n in ast.walk(st)):
+                raise AnalysisError('propagate_errors: conditional return `%s`'
+                                    % norm_text(st.test)[:60])
             continue
         if isinstance(st, ast.Return):
             continue
